@@ -33,6 +33,7 @@ type c07Case struct {
 	OffS     int64
 	Mode     int // MaxFee = 0 | 1 | fee-1 | fee | fee+1 | 2*fee | max
 	ModeName string
+	PreTouch bool // admission already saw this tx object at other unit prices
 }
 
 var c07Modes = []string{"0", "1", "fee-1", "fee", "fee+1", "2fee", "max"}
@@ -75,6 +76,7 @@ func c07Gen(rt *rapid.T) c07Case {
 	c.OffS = rapid.Int64Range(12, 45).Draw(rt, "offs")
 	c.Mode = rapid.IntRange(0, len(c07Modes)-1).Draw(rt, "mode")
 	c.ModeName = c07Modes[c.Mode]
+	c.PreTouch = rapid.Bool().Draw(rt, "pretouch")
 	return c
 }
 
@@ -138,6 +140,20 @@ func c07Run(c c07Case, st *vstat.Stats) error {
 
 	// ---- gate 1: admission
 	pe := chain.NewPreExecutor(fixture.RuleFactory{R: l.rules}, noReplayWindow(), fixture.Metadata(), fixture.BalanceHandler())
+	if c.PreTouch {
+		// the same tx object was seen earlier by admission against a state with other unit prices
+		// (a mempool re-check after the fee market moved); nothing it computed then may stick
+		alt := map[string][]byte{}
+		for k, v := range l.parent0 {
+			alt[k] = v
+		}
+		var p2 [5]uint64
+		for d := 0; d < 5; d++ {
+			p2[d] = 3*c.Prices[d] + 1000
+		}
+		alt[string(fixture.FeeKey())] = parentFeeBytes(p2, now-1000)
+		_ = pe.PreExecute(ctx, l.genesis.ExecutionBlock, state.ImmutableStorage(alt), tx)
+	}
 	aerr := pe.PreExecute(ctx, l.genesis.ExecutionBlock, state.ImmutableStorage(l.parent0), tx)
 	if over && aerr == nil && !known {
 		return fmt.Errorf("admission accepted a tx whose fee %d exceeds its MaxFee %d", fee, spec.MaxFee)
